@@ -204,7 +204,7 @@ def run(ctx):
     ctx.touch(cl)
     sc = sym.summarize(repo, cl.qualname)
     ctx.clause("sign <-> direction when the lattice is built: positive id -> first vertex, negative id -> last vertex, negative cell key -> reversed cycle")
-    ap = [e for e in sc.events if e.kind == "call" and isinstance(e.fname, tuple) and e.fname[1] == "append" and len(e.loops()) == 2]
+    ap = [e for e in rules.additions(sc) if len(e.loops()) == 2]
     ok = False
     for e in ap:
         eid = ("bv", e.loops()[1][1])
